@@ -672,11 +672,58 @@ class Prov:
                 for o in src:
                     roots |= self.of_operand(o)
                 return frozenset(roots)
-        roots |= self.of_local(pl["l"])
+        roots |= self.of_local(pl["l"], self._first_field(pl))
         # index operands are *not* provenance of the value
         return frozenset(roots)
 
-    def of_local(self, l):
+    @staticmethod
+    def _first_field(pl):
+        """The named field a place selects directly under its local (through derefs only): `(*l).f...` -> f."""
+        for p in pl["p"]:
+            if p == "*":
+                continue
+            if isinstance(p, dict) and "n" in p:
+                return p["n"]
+            return None
+        return None
+
+    def of_local(self, l, field=None):
+        """`field`: the value read is `l.field` / `(*l).field` - stores into a *different* named field of `l` are not
+        its provenance (one `&mut Self` local used for every access, as after inlining a `&mut self` helper)."""
+        if field is not None:
+            others = [d for d in self.body.defs().get(l, []) if d[2] == "assign" and self._first_field(d[3]["place"]) not in (None, field)]
+            if not others:
+                field = None
+        if field is not None:
+            key = (l, field)
+            if key in self._memo:
+                return self._memo[key]
+            roots = set()
+            b = self.body
+            if 1 <= l <= b.arg_count:
+                roots.add(("arg", l, b.local_name(l)))
+            if not hasattr(self, "_inprog"):
+                self._inprog = []
+                self._hit = set()
+            if key in self._inprog:
+                return frozenset()
+            self._inprog.append(key)
+            for (bi, si, kind, payload) in b.defs().get(l, []):
+                if kind == "assign":
+                    if self._first_field(payload["place"]) not in (None, field):
+                        continue
+                    roots |= self._of_rvalue(payload["rv"])
+                elif kind == "call":
+                    roots |= self._of_call(payload)
+                elif kind == "yield":
+                    roots.add(("resume",))
+            for (bi, si, kind, payload) in self._refs_of(l):
+                roots.add(("outparam", payload.name))
+            self._inprog.pop()
+            r = frozenset(roots)
+            if not self._hit:
+                self._memo[key] = r
+            return r
         if l in self._memo:
             return self._memo[l]
         if not hasattr(self, "_inprog"):
